@@ -111,6 +111,10 @@ func checkC07(c *Ctx, r *Report) {
 	compareSpec(c, r, responseSpecs, "field", nc)
 	r.Extra["not_covered"] = nc
 
+	// a variable-length tail decoded into a value that was used before: what the reference
+	// decoding says must not depend on what the value held (rule shared with C17)
+	checkDecoderAssignment(c, r, "decoders-overwrite", 28, nil)
+
 	r.Rule("accepts-minimal-encoding", "the decoder has a success path for the specification's shortest valid encodings", 10)
 	for _, m := range minimalEncodings {
 		fn := c.Method(m.Pkg, m.Type, m.Method)
